@@ -192,6 +192,15 @@ unsafe fn install_seccomp(deny: &[String]) {
     prog.push(stmt(RET_K, ALLOW));
     prog.push(stmt(LD_W_ABS, 0)); // nr
     for name in deny {
+        if name == "fsconfig_set_string" {
+            // kernels with the new mount API but without hidepid=ptraceable / subset=pid (5.1 - 5.7): FSCONFIG_SET_STRING => EINVAL
+            prog.push(jump(JEQ_K, libc::SYS_fsconfig as u32, 0, 4));
+            prog.push(stmt(LD_W_ABS, 24)); // args[1], low word
+            prog.push(jump(JEQ_K, 1, 0, 1)); // FSCONFIG_SET_STRING
+            prog.push(stmt(RET_K, ERRNO | libc::EINVAL as u32));
+            prog.push(stmt(LD_W_ABS, 0));
+            continue;
+        }
         prog.push(jump(JEQ_K, sysno(name) as u32, 0, 1));
         prog.push(stmt(RET_K, ERRNO | libc::ENOSYS as u32));
     }
